@@ -3,6 +3,7 @@
 mod checks;
 mod fw;
 mod gen;
+mod msggen;
 
 use std::time::Instant;
 
